@@ -84,6 +84,9 @@ pub enum Op {
     /// `victim` selects which mode's file a name-dependent fault hits (index modulo mode count)
     BreakFolder { kind: FolderFault, #[serde(default)] victim: usize },
     HealFolder,
+    /// C18: name flavour of the target folder: 0 ascii, 1 non-ASCII UTF-8, 2 contains a space,
+    /// 3 not valid UTF-8 (legal on Linux)
+    SetFolderName { flavour: u8 },
 }
 
 impl Op {
@@ -105,6 +108,7 @@ impl Op {
             Op::ExportDot { .. } => "export_dot",
             Op::BreakFolder { .. } => "break_folder",
             Op::HealFolder => "heal_folder",
+            Op::SetFolderName { .. } => "set_folder_name",
         }
     }
     /// The iterator slot the op acts on, if any.
